@@ -74,6 +74,11 @@ func NewProof(Session []byte, N, P, Q *big.Int, rand io.Reader) (*ProofMod, erro
 			}
 			if isQuadraticResidue(Yi, P) && isQuadraticResidue(Yi, Q) {
 				Xi := modN.Exp(Yi, expo)
+				// x and N-x are both fourth roots and anyone can turn one into the other: always send the
+				// smaller one, the only one of the two that Verify accepts
+				if negXi := new(big.Int).Sub(N, Xi); negXi.Cmp(Xi) < 0 {
+					Xi = negXi
+				}
 				Zi := modN.Exp(Y[i], invN)
 				X[i], Z[i] = Xi, Zi
 				A.SetBit(A, i, uint(a))
@@ -137,6 +142,10 @@ func (pf *ProofMod) Verify(Session []byte, N *big.Int) bool {
 	}
 	for i := range pf.X {
 		if pf.X[i].Sign() != 1 || pf.X[i].Cmp(N) != -1 {
+			return false
+		}
+		// of the pair x, N-x only the smaller is accepted, so that a proof cannot be altered by negating a root
+		if new(big.Int).Lsh(pf.X[i], 1).Cmp(N) == 1 {
 			return false
 		}
 	}
